@@ -501,9 +501,10 @@ type modInfo struct {
 }
 
 type cellMod struct {
-	whole  bool
-	fields map[int]bool
-	typ    types.Type
+	whole   bool
+	fields  map[int]bool
+	typ     types.Type
+	backing bool // the cell is a backing array (content sort: Array idx elem)
 }
 
 // loopModSet returns what may be written inside the natural loop of header h,
@@ -586,6 +587,36 @@ func (f *frame) loopModSet(h *ssa.BasicBlock, be map[[2]int]bool) (map[string]*m
 			cm.fields[field] = true
 		}
 	}
+	// sliceWrite: an element of slice value sv is written. When sv is (a
+	// sub-slice of) a slice defined outside the loop only that backing array is
+	// havocked, otherwise the whole element heap.
+	var sliceWrite func(sv ssa.Value, elem types.Type, depth int)
+	sliceWrite = func(sv ssa.Value, elem types.Type, depth int) {
+		if sl, ok := sv.(*ssa.Slice); ok {
+			if _, isSlice := sl.X.Type().Underlying().(*types.Slice); isSlice {
+				sliceWrite(sl.X, elem, depth)
+				return
+			}
+		}
+		if depth == 0 {
+			inv := false
+			switch x := sv.(type) {
+			case *ssa.Parameter, *ssa.FreeVar:
+				inv = true
+			case ssa.Instruction:
+				inv = !body[x.Block()]
+			}
+			if val, ok := f.vals[sv]; ok && inv {
+				mi := get(elem, true)
+				base := fmt.Sprintf("(s_base %s)", val.term)
+				if mi.cells[base] == nil {
+					mi.cells[base] = &cellMod{whole: true, backing: true, typ: elem}
+				}
+				return
+			}
+		}
+		touch(elem, true)
+	}
 	var root func(v ssa.Value, field int, depth int)
 	root = func(v ssa.Value, field int, depth int) {
 		switch a := v.(type) {
@@ -594,7 +625,7 @@ func (f *frame) loopModSet(h *ssa.BasicBlock, be map[[2]int]bool) (map[string]*m
 			return
 		case *ssa.IndexAddr:
 			if sl, ok := a.X.Type().Underlying().(*types.Slice); ok {
-				touch(sl.Elem(), true)
+				sliceWrite(a.X, sl.Elem(), depth)
 				return
 			}
 			root(a.X, field, depth)
@@ -645,7 +676,7 @@ func (f *frame) loopModSet(h *ssa.BasicBlock, be map[[2]int]bool) (map[string]*m
 					}
 					name := callee.String()
 					if isPutUint(name) {
-						touch(types.Typ[types.Uint8], true)
+						sliceWrite(v.Call.Args[1], types.Typ[types.Uint8], depth)
 						continue
 					}
 					if pureStd(name) {
@@ -738,6 +769,11 @@ func (f *frame) havocLoopHeap(st *State, n string, mi *modInfo) {
 	h := e.heapByName(st, n)
 	for _, cell := range sortedKeys(mi.cells) {
 		cm := mi.cells[cell]
+		if cm.backing {
+			nv := e.declare("looparr", fmt.Sprintf("(Array %s %s)", e.idxSort(), e.sc.sortOf(cm.typ)))
+			h = fmt.Sprintf("(store %s %s %s)", h, cell, nv)
+			continue
+		}
 		stT, isStruct := cm.typ.Underlying().(*types.Struct)
 		if cm.whole || !isStruct {
 			nv := e.declare("loopcell", e.sc.sortOf(cm.typ))
@@ -995,6 +1031,10 @@ func (f *frame) runBlock(b *ssa.BasicBlock, st *State, be map[[2]int]bool, loopO
 					f.locals = append(f.locals, localCell{hn, loc, v})
 				}
 			}
+			// a named local that lives in a cell: the name denotes the cell's content
+			if v.Comment != "" && v.Comment != "complit" && v.Comment != "varargs" {
+				f.defs = append(f.defs, nameDef{"&" + v.Comment, b, f.vals[v]})
+			}
 		case *ssa.Store:
 			a := f.asAddr(f.val(v.Addr))
 			sv := f.val(v.Val)
@@ -1050,6 +1090,23 @@ func (f *frame) runBlock(b *ssa.BasicBlock, st *State, be map[[2]int]bool, loopO
 			var rs []Val
 			for _, r := range v.Results {
 				rs = append(rs, f.val(r))
+			}
+			if f.ctr != nil && f.parent == nil {
+				if asserts := f.ctr.CallAsserts["return"]; len(asserts) > 0 {
+					env := map[string]Val{}
+					for i, rv := range rs {
+						env[fmt.Sprintf("result%d", i)] = rv
+					}
+					if len(rs) == 1 {
+						env["result"] = rs[0]
+					}
+					for _, as := range asserts {
+						if t, bound := f.evalSpecAtSite(as.Src, st, env); bound {
+							o := e.oblige("at", fmt.Sprintf("%s/at@return:%s", f.name, as.Label), "", reach, t)
+							o.Slow = as.Slow
+						}
+					}
+				}
 			}
 			f.rets = append(f.rets, retPoint{reach: reach, vals: rs, st: st.clone(), blk: b.Index})
 		case *ssa.Panic:
@@ -1185,7 +1242,7 @@ func (f *frame) runBlock(b *ssa.BasicBlock, st *State, be map[[2]int]bool, loopO
 				lt = fmt.Sprintf("(bvult %s %s)", now, hi.varAt)
 			}
 			e.oblige("var", fmt.Sprintf("%s/loop%d/var", f.name, loopOrd[s.Index]), "", cond, lt)
-		} else if f.ctr != nil && f.ctr.Terminates && f.parent == nil {
+		} else if f.ctr != nil && f.ctr.Terminates && f.parent == nil && !isRangeLoop(s) {
 			e.oblige("var", fmt.Sprintf("%s/loop%d/var", f.name, loopOrd[s.Index]), "", cond, "false")
 		}
 	}
@@ -1415,4 +1472,21 @@ func (f *frame) stringOp(v *ssa.BinOp, x, y Val, st *State, reach string) Val {
 		return Val{term: e.declare("strcmp", "Bool"), typ: v.Type()}
 	}
 	panic("string op " + v.Op.String())
+}
+
+// isRangeLoop: go/ssa lowers `for i := range x` (slice, array, string index,
+// integer) to a header with a phi named rangeindex that is incremented once per
+// iteration and compared with a length evaluated before the loop: such loops
+// terminate by construction.
+func isRangeLoop(h *ssa.BasicBlock) bool {
+	for _, ins := range h.Instrs {
+		if phi, ok := ins.(*ssa.Phi); ok {
+			if phi.Comment == "rangeindex" {
+				return true
+			}
+		} else {
+			break
+		}
+	}
+	return false
 }
